@@ -257,7 +257,7 @@ LETTER = [
 FNC = ['fst.fst.FST.get_slice', 'fst.fst.FST.copy', 'fst.fst.FST.cut', 'fst.fst_get_slice._get_slice', 'fst.fst_core._make_fst_and_dedent', 'fst.astutil.copy_ast',
        'fst.fst_misc._fix_copy', 'fst.fst_core._offset']
 CELLS = []
-_Q = {'list4c', 'ifbody3', 'dict3', 'tuple3', 'decos', 'callargs', 'handlers', 'uni_list'}
+_Q = {'list4c', 'ifbody3', 'dict3', 'tuple3', 'decos', 'callargs', 'handlers', 'uni_list', 'global5'}
 for _c in pc.CARRIERS:
     CELLS.append(Cell(f'P1.{_c.id}.get_slice', _mk_slice(_c.id), 'P', FNC,
                       f'carrier {_c.id}; get_slice(a, b) / get_slice(cut=True) / put_slice(None) with (a, b) symbolic over Z; piece re-rendered and parsed by CPython in the same container kind',
